@@ -76,6 +76,7 @@ typedef struct obs {
     unsigned feat[8];         /* polyseed_get_feature(seed, m) for m = 0..7 */
     int enc;
     uint8_t kdf_pw[32]; size_t kdf_pwlen; uint8_t kdf_salt[32]; size_t kdf_saltlen; uint64_t kdf_iters; size_t kdf_keylen;
+    uint64_t phrase_en, phrase_ko;   /* digests of polyseed_encode(seed, English / Korean, coin): a seed is also what it encodes to */
 } obs;
 void observe(const polyseed_data *s, unsigned coin, obs *o);
 int obs_matches_ref(const obs *o, const rseed *r, unsigned coin, char *why, size_t whylen);
